@@ -26,6 +26,10 @@ def run(ck):
             with ck.watchdog(180, "late-share case %d" % i):
                 late_share_case(ck, rng, i)
             continue
+        if i % 7 == 5:
+            with ck.watchdog(180, "burst case %d" % i):
+                burst_case(ck, rng, i)
+            continue
         case = F.build(rng, allow_hang=True)
         truth, info = F.classify(case)
         profile = rng.choice(["fifo", "per-server-fifo", "free"])
@@ -87,7 +91,7 @@ def run(ck):
         if ck.tier == "quick" and ck.evaluations >= 1500:
             break
     ck.require_monitor("availability-oracle")
-    ck.require_reach("must-succeed", "must-fail", "status-ok", "status-err")
+    ck.require_reach("must-succeed", "must-fail", "status-ok", "status-err", "late-answers-arrive-in-one-burst")
 
 
 def late_share_case(ck, rng, i):
@@ -177,5 +181,89 @@ def late_share_case(ck, rng, i):
                          "k=%d intact shares stay on answering servers, the read never completed (%s)" % (k, st), w)
         ck.hit("status-" + st)
         ck.case("late-share", key=repr(w), nontrivial=True, sample=w)
+    finally:
+        g.close()
+
+
+def burst_case(ck, rng, i):
+    """Directed history: k+1..k+2 intact shares, one per server, every server answers every request; the block
+    reads of a random subset of servers are kept back (0.5 .. 25 virtual seconds) and the late answers then arrive in
+    one burst, in any order, before or after the reader's next eventual-send turn.  k intact shares
+    on answering servers exist throughout, so the read must succeed with the exact bytes."""
+    from vf.grid import VGrid
+    from vf import imm
+    from allmydata import uri
+    k = rng.randint(1, 3)
+    n = k + rng.randint(1, 2)
+    segsize = rng.choice([32, 64, 128])
+    size = max(56, segsize * rng.randint(1, 3) + rng.randint(0, 7))
+    p = dict(k=k, n=n, segsize=segsize)
+    data = imm.gen_data(rng, size)
+    key = rng.randbytes(16)
+    try:
+        cap, shares = imm.honest_shares(n, p, data, key)
+    except RuntimeError:
+        ck.observe("scratch-upload-failed")
+        return
+    profile = rng.choice(["fifo", "per-server-fifo", "free"])
+    g = VGrid(nservers=n, seed=rng.getrandbits(32), profile=profile, keep_log=False)
+    try:
+        si = uri.from_string(cap).get_storage_index()
+        imm.install_shares(g, si, shares, {s: s for s in shares})
+        (_, _, path0) = g.find_shares(si)[0]
+        d0, d1 = imm.ShareFile(path0).region("data")
+        which = rng.choice(["first-block-read", "first-block-read", "every-block-read"])
+        held_servers = rng.sample(range(n), rng.randint(max(1, k), n))
+        for s in held_servers:
+            g.servers[s].add_fault("hold", method="read", nth=1 if which == "first-block-read" else None,
+                                   when=lambda a, d0=d0, d1=d1: len(a) >= 1 and d0 <= a[0] < d1)
+        c = g.make_client(k=k, happy=1, n=n, max_segment_size=segsize)
+        node = c.create_node_from_uri(cap)
+        cons = imm.RecordingConsumer()
+        box = []
+        node.read(cons, 0, None).addBoth(box.append)
+        released = 0
+        bursts = 0
+        for rnd in range(12):
+            # let every timer within the chosen span fire, then release everything kept back at once
+            g.sched.run(until=lambda: bool(box), max_steps=100000, horizon=rng.choice([0.5, 11.0, 11.0, 25.0]))
+            if box:
+                break
+            nheld = sum(len(vs.held) for vs in g.servers)
+            if nheld >= 2:
+                bursts += 1
+            for vs in rng.sample(g.servers, len(g.servers)):
+                order = list(range(len(vs.held)))
+                rng.shuffle(order)
+                released += vs.release_held(order)
+        if not box:
+            for vs in g.servers:
+                del vs.faults[:]
+                released += vs.release_held()
+            g.sched.run(until=lambda: bool(box), max_steps=200000, horizon=4 * 3600.0)
+        if box:
+            r = box[0]
+            isf = hasattr(r, "type") and hasattr(r, "value")
+            st, res = ("err", r) if isf else ("ok", r)
+        else:
+            st, res = "hang", None
+        ck.mon("availability-oracle")
+        ck.hit("must-succeed")
+        if bursts:
+            ck.hit("late-answers-arrive-in-one-burst")
+        w = dict(k=k, n=n, size=size, segsize=segsize, held_servers=sorted(held_servers), which=which, profile=profile,
+                 released=released, bursts=bursts, status=st,
+                 error=(res.type.__name__ + ": " + str(res.value)[:200]) if st == "err" else None)
+        if st == "ok" and cons.value() != data:
+            ck.violation("success-with-wrong-data", "read succeeded with bytes that differ from the upload", w)
+        elif st == "err":
+            ck.violation("read-failed-with-k-good-shares",
+                         "all %d shares are intact and every server answers every request (the first block reads late, "
+                         "in one burst), yet the read failed: %s" % (n, w["error"]), w)
+        elif st != "ok":
+            ck.violation("read-did-not-complete-with-k-good-shares",
+                         "all %d shares are intact and every server answered, the read never completed (%s)" % (n, st), w)
+        ck.hit("status-" + st)
+        ck.case("burst", key=repr(w), nontrivial=True, sample=w)
     finally:
         g.close()
